@@ -36,6 +36,10 @@ let show_conv o = match o with
   | Err e -> "err " ^ conv_name e
   | Panic _ -> "panic"
 
+let dec_err_name = function UnexpectedCharacter -> "UnexpectedCharacter" | NotImplemented -> "NotImplemented"
+  | UnexpectedEnd -> "UnexpectedEnd" | CharsetError -> "CharsetError" | ECICode -> "ECICode"
+let show_dec f o = match o with Ok v -> "ok " ^ f v | Err e -> "err " ^ dec_err_name e | Panic _ -> "panic"
+
 let sym_of (i : int) = match ss_of_index (n_of_int i) with Some s -> s | None -> failwith "bad symbol index"
 
 let dispatch (op : string) (a : string array) : string =
@@ -62,6 +66,14 @@ let dispatch (op : string) (a : string array) : string =
   | "bitmap_tag" -> let (w, bits) = d_bitmap_tag (sym_of (int_of_string a.(0))) in Printf.sprintf "ok %d %s" (int_of_n w) (shown bits)
   | "from_bits" -> show_conv (d_from_bits (n_of_int (int_of_string a.(0))) (bools a.(1)))
   | "from_bits_flip" -> show_conv (d_from_bits_flip (sym_of (int_of_string a.(0))) (bools a.(1)) (n_of_int (int_of_string a.(2))))
+  | "decode_data" -> show_dec shown (d_decode_data (nlist a.(0)))
+  | "decode_str" -> show_dec shown (d_decode_str (nlist a.(0)))
+  | "read_eci" -> show_dec (fun (n, e) -> Printf.sprintf "%d %d" (int_of_n n) (int_of_n e)) (d_read_eci (nlist a.(0)))
+  | "write_eci" -> show_out shown (d_write_eci (n_of_int (int_of_string a.(0))))
+  | "latin1_to_utf8" -> (match d_latin1_to_utf8 (nlist a.(0)) with Some s -> "ok " ^ shown s | None -> "none")
+  | "utf8_to_latin1" -> (match d_utf8_to_latin1 (nlist a.(0)) with None -> "not-a-string" | Some (Some s) -> "ok " ^ shown s | Some None -> "none")
+  | "from_utf8" -> (match d_from_utf8 (nlist a.(0)) with Some s -> "ok " ^ shown s | None -> "none")
+  | "to_utf8" -> (match d_to_utf8 (nlist a.(0)) with Some s -> "ok " ^ shown s | None -> "not-a-string")
   | "spec_gmulrow" -> shown (d_spec_gmulrow (n_of_int (int_of_string a.(0))))
   | _ -> "unknown-op " ^ op
 
